@@ -17,6 +17,8 @@ type RawEntry struct {
 
 // DumpDB reads every bucket of the wallet database through the public db API
 // (ungated: call it from the root goroutine at a quiescent point).
+//
+//go:norace
 func DumpDB(db mwdb.DB) ([]RawEntry, error) {
 	var out []RawEntry
 	err := mwdb.View(db, func(tx mwdb.ReadTransaction) error {
@@ -64,6 +66,7 @@ func DumpDB(db mwdb.DB) ([]RawEntry, error) {
 	return out, err
 }
 
+//go:norace
 func (e RawEntry) String() string {
 	return fmt.Sprintf("%s %s = %s", e.Bucket, hex.EncodeToString(e.Key), hex.EncodeToString(e.Value))
 }
